@@ -63,7 +63,7 @@ def r2_cleanup_loop(run, w):
   R2 = run.rule("C10-R2", "doBulkRemoveRecord: the clean-up loop post-dominates the removal, "
                 "covers the whole _back_references of the same table, skips only formula / "
                 "non-reference columns and emits every non-empty update", floor=8)
-  fn = w.fn("useractions.UserActions.doBulkRemoveRecord")
+  fn = H.inlined_fn(w, "useractions.UserActions.doBulkRemoveRecord")
   cfg = fn.cfg
   du = DefUse(fn)
   rd = H.ReachDefs(fn, du)
@@ -282,7 +282,8 @@ BACKREF_OWNERS = {
 def r3_registration(run, w):
   R3 = "C10-R3"
   # inverse_map exactness: C05-R5, recorded under C10-R3
-  r5_reference_index(H.RuleAlias(run, {"C05-R5": R3}), w)
+  # (run on keyword-normalised copies: C05-R5 reads call arguments by position)
+  r5_reference_index(H.RuleAlias(run, {"C05-R5": R3}), H.NormWorld(w))
   run.rule(R3, "registration pairing: a reference column joins its target table's "
            "_back_references on creation and leaves on destroy, nobody else writes the set; the "
            "reverse index follows every write (C05-R5)", floor=12)
